@@ -31,8 +31,18 @@ NAMES = ['p', 'div', 'span', 'b', 'li']
 KINDS = ['text', 'text', 'text', 'blank', 'comment', 'cdata', 'pi', 'doctype', 'decl']
 
 
-def gen_tree(rng, iframes):
+def gen_tree(rng, iframes, foreign=None):
+    """foreign: None, 'markup' (html5lib: <svg><iframe>text</iframe></svg> stays in the SVG namespace) or 'api' (explicit namespaces)."""
     budget = [rng.randint(2, 16)]
+    NS_SVG = 'http://www.w3.org/2000/svg'
+
+    def foreign_iframe():
+        # an element *called* iframe that is not an HTML iframe: ordinary content
+        kw = {'ns': NS_SVG} if foreign == 'api' else {}
+        fr = E('iframe', {}, [T('text', rng.choice(TEXTS))], **kw)
+        if rng.random() < .4:
+            fr.kids += [E('g', {}, [T('text', rng.choice(TEXTS))], **kw)]
+        return E('svg', {}, ([T('text', rng.choice(TEXTS))] if rng.random() < .3 else []) + [fr], **kw)
 
     def filler():
         out = []
@@ -66,6 +76,10 @@ def gen_tree(rng, iframes):
         while budget[0] > 0 and depth < 5 and rng.random() < .6:
             e.kids.append(el(depth + 1))
             e.kids += filler()
+        if foreign and nm != 'p' and rng.random() < .25:
+            e.kids.append(foreign_iframe())
+        if foreign == 'api':
+            e.ns = NS_XHTML
         return e
     return el(0)
 
@@ -146,8 +160,16 @@ def run_unit(u):
     for _ in range(u['n']):
         how = rng.choice(['api', 'api', 'api-xml', 'html.parser', 'html.parser', 'lxml', 'html5lib', 'xml'])
         iframes = how in ('api', 'html.parser')
-        root = gen_tree(rng, iframes)
-        tops = [root] if rng.random() < .5 else [E('html', {}, [E('body', {}, [root])])]
+        foreign = 'markup' if how == 'html5lib' and rng.random() < .5 else None
+        if how == 'api' and rng.random() < .2:
+            foreign = 'api'
+        root = gen_tree(rng, iframes and not foreign, foreign)
+        if foreign:
+            bump('foreign-iframe:' + how)
+        if foreign == 'api':
+            tops = [E('html', {}, [E('body', {}, [root], ns=NS_XHTML)], ns=NS_XHTML)]
+        else:
+            tops = [root] if rng.random() < .5 else [E('html', {}, [E('body', {}, [root])])]
         if how in ('api', 'api-xml') and rng.random() < .4:
             tops = [T('doctype', 'html'), T('comment', 'top alpha')] + tops + [T('text', 'tail')]
         try:
@@ -233,7 +255,7 @@ def inconclusive(cn, tier):
     out = []
     if cn.get('nontrivial', 0) < (15000 if tier == 'quick' else 500000):
         out.append('too few non-trivial comparisons: %d' % cn.get('nontrivial', 0))
-    for k in ('how:api', 'how:api-xml', 'how:html.parser', 'how:lxml', 'how:html5lib', 'how:xml', 'needle:cut', 'needle:empty', 'needle:hostile'):
+    for k in ('foreign-iframe:html5lib', 'foreign-iframe:api', 'how:api', 'how:api-xml', 'how:html.parser', 'how:lxml', 'how:html5lib', 'how:xml', 'needle:cut', 'needle:empty', 'needle:hostile'):
         if cn.get(k, 0) < 200:
             out.append('%s only %d' % (k, cn.get(k, 0)))
     return out
